@@ -82,6 +82,8 @@ fn inputs(ev: Ev, d1: usize, d2: usize) -> Vec<String> {
             v.push(format!("{}{}", a, post));
         }
     }
+    // every name x the critical arguments (branch points, poles, range limits; without the triples)
+    v.extend(refmodel::families::critical(ev, false));
     v
 }
 
